@@ -222,8 +222,11 @@ def extract_pda(p):
     start = p.start_state
     g = p.to_networkx()
     ss = None
-    if "INITIAL_STACK_HIDDEN" in g.nodes:
-        ss = json.loads(g.nodes["INITIAL_STACK_HIDDEN"]["label"])
+    for node, data in g.nodes(data=True):
+        # the node the exporter invents for the start stack symbol: marked as such, or (older layout) known by its
+        # name and by not being a state
+        if data.get("is_initial_stack_symbol", node == "INITIAL_STACK_HIDDEN" and "is_start" not in data):
+            ss = json.loads(data["label"])
     return PDA([s.value for s in p.states], None if start is None else start.value, ss,
                [s.value for s in p.final_states], trans)
 
